@@ -92,6 +92,17 @@ CHECKS = {
               "run with the real splipy.state.state, and a settings monitor around API calls including the G2 reader of trimmed surfaces."),
         note=TB + " C20: that library calls have an empty write set is an assumption of theorem 7 that is tied to the code only by the settings monitor; Python contextmanager/try-finally semantics are modelled.",
         design='DESIGN.md section 8, C20'),
+    'C05': dict(
+        engine='objdiff',
+        technique='Coq proof (self-checking exact solve; sorted-merge knot vector; lifting lemma conditional on nestedness) + differential run: implementation vs exact collocation solve in the extracted model, and the statement evaluated on the implementation',
+        text=("PARTIAL proof level. Theorems in Properties/C05.v: the exact solve used by the model only ever returns solutions; the elevated knot vector is the sorted merge; IF the spline "
+              "spaces are nested (degree-elevation theorem, not proved) THEN the order-change matrix applied along any direction preserves every coordinate of the evaluation. The geometric half "
+              "is therefore carried by the correspondence: the implementation's control points after raise_order/set_order/lower_order are compared with the unique exact interpolant computed by "
+              "the extracted model (L1), and the statement is evaluated on the implementation with the proven evaluator (L2): map before = map after at knots/mid-spans/random parameters, order "
+              "grows by the amounts, domain, periodicity and every knot multiplicity (continuity) preserved, lower_order(raise_order) restores knot vectors and map. Known findings: objects with an "
+              "interior knot of full multiplicity, non-open knot vectors, lower_order on periodic objects."),
+        note=TB + " C05: nestedness of spline spaces under degree elevation is not proved; np.linalg.inv/spsolve are modelled by the exact solve; tolerance of the control-point comparison 1e-7.",
+        design='DESIGN.md section 8, C05'),
 }
 
 PENDING_REASON = "not claimed in this revision: model/theorems for this property are still being built (see DESIGN.md section 8 for the plan)"
